@@ -23,6 +23,10 @@ import numbers as _numbers
 import operator as _operator
 
 
+class Ratio(F):
+    """a user's sub-class of Fraction: an exact rational like any other"""
+
+
 class I64(_numbers.Integral):
     """An integer type that is NOT derived from int (like numpy.int64): every
     operation answers like int does -- in particular the quotient of two of
@@ -107,6 +111,9 @@ def dec(code):
         return float(txt)
     if kind == 'I':
         return I64(int(txt))
+    if kind == 'R':                 # an instance of a sub-class of Fraction
+        n, _, d = txt.partition('/')
+        return Ratio(int(n), int(d or 1))
     if kind == 'S':
         return _stddec.Decimal(txt)
     if kind == 's':
@@ -135,7 +142,7 @@ def val(code):
         return F(int(txt))
     if kind in ('D', 'S'):
         return F(_stddec.Decimal(txt))
-    if kind == 'F':
+    if kind in ('F', 'R'):
         n, _, d = txt.partition('/')
         return F(int(n), int(d or 1))
     if kind == 'f':
